@@ -1,5 +1,59 @@
-"""non-Verus engines attached to properties: Kani lemma base, in-place Kani contracts, coefficient
-lemmas (verus by(compute)), bounded stand-ins.  Each returns a dict
-{name, status ok|failed|undecided, obligations, discharged, violations[], samples[], bounded?}"""
+"""non-Verus-unit engines attached to properties: coefficient lemmas (verus by(compute)), Kani lemma base,
+in-place Kani contracts, bounded stand-ins.  Each returns a dict
+{name, status ok|failed|undecided, obligations, discharged, violations[], samples[], backend, bounded?}"""
+import os, sys, json, hashlib, concurrent.futures
+ROOT = os.path.dirname(os.path.dirname(os.path.abspath(__file__)))
+REPO = os.environ.get("VERIF_REPO", "/repo")
+CACHE = os.path.join(ROOT, "build", "cache")
+
+def _sha(*paths):
+    h = hashlib.sha256()
+    for p in paths:
+        try: h.update(open(p, "rb").read())
+        except OSError: h.update(b"?")
+    return h.hexdigest()[:24]
+
+def cached(name, key, fn, use_cache=True):
+    os.makedirs(CACHE, exist_ok=True)
+    p = os.path.join(CACHE, "%s.%s.json" % (name, key))
+    if use_cache and os.path.exists(p):
+        try:
+            r = json.load(open(p)); r["cached"] = True; return r
+        except ValueError:
+            pass
+    r = fn()
+    r["cached"] = False
+    if r.get("status") in ("ok", "failed"):
+        json.dump(r, open(p, "w"))
+    return r
+
+def coef_engine(method, tier):
+    from coef import orderconds
+    src = os.path.join(REPO, orderconds.FILES[method])
+    key = _sha(src, os.path.join(ROOT, "coef", "orderconds.py"), os.path.join(ROOT, "vx", "gen.py"))
+    return cached("coef_" + method, key, lambda: orderconds.run(method, REPO), use_cache=(tier != "thorough"))
+
 def run_for(prop, tier, seed):
-    return []
+    jobs = []
+    reg = json.load(open(os.path.join(ROOT, "registry.json")))
+    for e in reg.get("engines", []):
+        if prop not in e.get("properties", []): continue
+        if tier != "thorough" and e.get("tier", "quick") != "quick": continue
+        jobs.append(e)
+    out = []
+    def run(e):
+        try:
+            if e["kind"] == "coef":
+                return coef_engine(e["method"], tier)
+            if e["kind"] == "kani_lemmas":
+                from . import kani_engine
+                return kani_engine.lemma_base(tier)
+            if e["kind"] == "kani_inplace":
+                from . import kani_engine
+                return kani_engine.inplace(e, tier)
+        except Exception as ex:
+            return {"name": e["name"], "status": "undecided", "reason": "engine error: %r" % (ex,)}
+        return {"name": e["name"], "status": "undecided", "reason": "unknown engine kind"}
+    with concurrent.futures.ThreadPoolExecutor(max_workers=4) as ex:
+        out = list(ex.map(run, jobs))
+    return out
